@@ -162,9 +162,12 @@ const L_START: i64 = 0;
 const L_ENV: i64 = 2;
 const L_CANCEL: i64 = 3;
 const L_FIRE: i64 = 5;
+/// the virtual clock moves half way towards the next deadline; nothing fires
+const L_TICK: i64 = 6;
 const OP_GET: i64 = 0;
 const OP_DROP: i64 = 1;
 const OP_TAKE: i64 = 2;
+const OP_RESIZE: i64 = 3;
 const OP_STATUS: i64 = 6;
 
 /// every task gets its own durations so that no two deadlines coincide
@@ -354,6 +357,11 @@ impl World {
                 drop(sh);
                 self.next_deadline().map(|(t, _)| t as i64 == l[1]).unwrap_or(false)
             }
+            L_TICK => {
+                drop(sh);
+                let now = self.now();
+                self.next_deadline().map(|(_, d)| d > now + Duration::from_millis(2)).unwrap_or(false)
+            }
             _ => false,
         }
     }
@@ -414,6 +422,12 @@ impl World {
                         let _ = self.log.sh.lock().unwrap().results.insert(t, 10);
                         self.handles.push(None);
                     }
+                    OP_RESIZE => {
+                        let n = l[3].max(0) as usize;
+                        TID.sync_scope(t, || self.pool.resize(n));
+                        let _ = self.log.sh.lock().unwrap().results.insert(t, 10);
+                        self.handles.push(None);
+                    }
                     _ => {
                         let s = self.pool.status();
                         self.log.ev([EV_STATUS, s.max_size as i64, s.size as i64, s.available as i64, s.waiting as i64]);
@@ -432,6 +446,14 @@ impl World {
             L_CANCEL => {
                 if let Some(h) = &self.handles[l[1] as usize] {
                     h.abort();
+                }
+            }
+            L_TICK => {
+                if let Some((_, d)) = self.next_deadline() {
+                    let now = self.now();
+                    if d > now + Duration::from_millis(2) {
+                        tokio::time::advance((d - now) / 2).await;
+                    }
                 }
             }
             L_FIRE => {
@@ -485,8 +507,11 @@ fn choose(r: &mut Rng, w: &World, cap: usize) -> Option<Vec<i64>> {
             }
         }
     }
-    if let Some((t, _)) = w.next_deadline() {
+    if let Some((t, d)) = w.next_deadline() {
         cands.push((8, vec![L_FIRE, t as i64, 0, 0, 0]));
+        if d > w.now() + Duration::from_millis(2) {
+            cands.push((4, vec![L_TICK, 0, 0, 0, 0]));
+        }
     }
     let n = w.ops.len();
     if n < cap {
@@ -508,6 +533,15 @@ fn choose(r: &mut Rng, w: &World, cap: usize) -> Option<Vec<i64>> {
             cands.push((2, vec![L_START, nt, OP_TAKE, o, 0]));
         }
         cands.push((2, vec![L_START, nt, OP_STATUS, 0, 0]));
+        // a resize now and then: shrinks under load leave a debt that waiting gets have to settle
+        let cur = w.pool.verif_snapshot().max_size as u64;
+        let target = match r.below(4) {
+            0 => cur.saturating_sub(1),
+            1 => cur.saturating_sub(2),
+            2 => cur + 1,
+            _ => r.below(cur + 2),
+        };
+        cands.push((3, vec![L_START, nt, OP_RESIZE, target as i64, 0]));
     }
     if cands.is_empty() {
         return None;
